@@ -197,17 +197,18 @@ func (c *converter) facts(n ast.Node) string {
 		cst = "(Some " + coqfmt.Str(s) + ")"
 	}
 	sg := sigfact(typ)
+	istype := info.Types[e].IsType()
 	multi := 0
 	if _, isCall := e.(*ast.CallExpr); isCall {
 		if tup, ok := typ.(*types.Tuple); ok && tup.Len() >= 2 {
 			multi = tup.Len()
 		}
 	}
-	if obj == "ONone" && objid == 0 && astnil && ty == "TyOther" && !deflit && !arr && !pure && cst == "None" && sg == "NoSig" && multi == 0 {
+	if obj == "ONone" && objid == 0 && astnil && ty == "TyOther" && !deflit && !arr && !pure && cst == "None" && sg == "NoSig" && !istype && multi == 0 {
 		return "nf"
 	}
-	return fmt.Sprintf("(F %s %d %s %s %s %s %s %s %s %d)", obj, objid, coqfmt.Bool(astnil), ty, coqfmt.Bool(deflit), coqfmt.Bool(arr),
-		coqfmt.Bool(pure), cst, sg, multi)
+	return fmt.Sprintf("(F %s %d %s %s %s %s %s %s %s %s %d)", obj, objid, coqfmt.Bool(astnil), ty, coqfmt.Bool(deflit), coqfmt.Bool(arr),
+		coqfmt.Bool(pure), cst, sg, coqfmt.Bool(istype), multi)
 }
 
 func (c *converter) node(n ast.Node) {
